@@ -583,6 +583,8 @@ class Interp:
         z.touch(t)
         z.add_le(a, t)
         z.add_le(b, t)
+        # (a difference-bound zone cannot say t = a + b: remembered on the side until the next loop head)
+        st.loadcache[('sum', t)] = (a, b)
         return t
 
     def deref(self, st, ptr):
@@ -1364,8 +1366,21 @@ class Interp:
         if k == 'closure':
             return ('closure', ty['body'], (), tuple(sorted((gs or {}).items(), key=lambda kv: kv[0])))
         if k == 'ref':
+            to = ty.get('to') or {}
+            if (to.get('k') == 'array' and str(to.get('len')) == '0' and ty_is_mu(to.get('elem') or {})) \
+                    or (to.get('k') == 'slice' and ty_is_mu(to.get('elem') or {}) and val.replace(' ', '').endswith('[]')):
+                # `&[]` of slots: the empty slice (of a phantom container that holds nothing)
+                return ('ref', bool(ty.get('mut')), ('slice', self.empty_map(st), 0, 0))
             return ('ref', False, ('opq', ('const', val)))
         return ('opq', ('const', val))
+
+    def empty_map(self, st):
+        for mid, ms in st.maps.items():
+            if ms.name == '$empty':
+                return mid
+        mid = self.new_map(st, fresh('$cap'), '$empty', phantom=True)
+        st.zone.add_eq(st.maps[mid].len, 0)
+        return mid
 
     def int_of(self, st, v):
         if v[0] == 'int':
